@@ -631,4 +631,64 @@ theorem weightCellValues_frame {n : Nat} (ev : List (String × Ref)) (ws : List 
       obtain ⟨h3, r3⟩ := res2
       cases r3 <;> exact p3
 
+/-! ### helper lemmas moved out of Properties/C03 (not property statements) -/
+
+theorem combineEntries_frame {n : Nat} (f : Rat → Rat → Rat) (cur nxt : List (String × Ref))
+    (ks : List (String × Ref)) : ∀ {h : Heap}, n ≤ h.size → Preserves n h (combineEntries f h cur nxt ks).1 := by
+  induction ks with
+  | nil => intro h hn; exact Preserves.refl hn
+  | cons k rest ih =>
+    intro h hn
+    obtain ⟨k, v⟩ := k
+    simp only [combineEntries]
+    split
+    · split
+      · have := ih (h := h) hn
+        split <;> simp_all
+      · split
+        · exact Preserves.refl hn
+        · rename_i h1 r hb
+          have p1 := (binop_frame hn hb).1
+          have := p1.trans (ih (h := h1) p1.1)
+          split <;> simp_all
+    · exact Preserves.refl hn
+
+/-- the reachable locations of an argument that lives in the heap existed at entry, so they are
+covered by `Preserves` -/
+theorem reach_head_lt {h : Heap} {l : Loc} {o : Obj} (hl : h.get l = some o) : l < h.size := by
+  simp only [Heap.get, Heap.size] at *
+  exact (List.getElem?_eq_some_iff.mp hl).1
+
+/-! ### transitive reachability -/
+
+/-- the one-level `reach` is contained in the transitive `Reach` -/
+theorem reach_sub_Reach {h : Heap} {r : Ref} {l : Loc} (hl : l ∈ reach h r) : Reach h r l := by
+  cases r with
+  | none => simp [reach] at hl
+  | scalar q => simp [reach] at hl
+  | loc l0 =>
+    simp only [reach, List.mem_cons] at hl
+    rcases hl with rfl | hl
+    · exact Reach.self _
+    · split at hl
+      · rename_i es hg
+        simp only [List.mem_filterMap] at hl
+        obtain ⟨e, he, hm⟩ := hl
+        obtain ⟨k, v⟩ := e
+        cases v with
+        | loc l' =>
+          simp only [Option.some.injEq] at hm
+          subst hm
+          exact Reach.step (Reach.self l0) hg he
+        | none => simp at hm
+        | scalar q => simp at hm
+      · simp at hl
+
+/-- in a heap without dangling references everything reachable from a live object is live -/
+theorem Reach.lt_size {h : Heap} (hc : h.Closed) {r : Ref} {l : Loc} (hr : Reach h r l)
+    (h0 : ∀ l0, r = .loc l0 → l0 < h.size) : l < h.size := by
+  induction hr with
+  | self l => exact h0 l rfl
+  | step _ hg he _ => exact hc _ _ _ _ hg he
+
 end Bermuda.Heap
